@@ -5,8 +5,11 @@
     * fields of INTERFACE / UNION type (any list / non-null wrappers) next to object- and leaf-typed ones;
     * typed inline fragments `... on C { fields }` (no directive `@skip/@include` on the fragment, content = fields only)
       in every selection set;
-    * `__typename` (un-aliased, unconditional) in every selection set below the operation root.
-  No named fragments.
+    * `__typename` (un-aliased, unconditional) in every selection set below the operation root;
+    * NAMED FRAGMENTS USED AS MIXINS (the fragment definitions are those of the mixin tier, Proofs/C01MixDefs.lean): a spread
+      `...G` where the class it lands in is on exactly the OBJECT type `G` is defined on — directly in the selection set, or
+      inside a merged inline fragment on that very type; the class then inherits from `G`'s class (`aBases`), its field nodes
+      are its own (`rflat`) and the inherited ones (`c0`/`c1`/`cnodes`, the executor's view).
 
   * `aClass env cn tn tv a sel`: structural description of the classes `_parse_type_definition` emits for the selection
     set `sel` on type `tn`, root class `cn`, typename values `tv`, `add_typename = a`
@@ -14,7 +17,7 @@
   * `AbsOK env cn tn sid sel st : Bool`: the decidable hypothesis of the tier.
   * `needSids`: the selection-set ids that receive an automatic `__typename`.
 -/
-import AriadneModel.Proofs.C01PlainDefs
+import AriadneModel.Proofs.C01MixDefs
 import AriadneModel.Model.Marks
 
 set_option linter.unusedSimpArgs false
@@ -80,7 +83,7 @@ def incl (env : Env) (c tn : String) : Bool := (inlineFragmentRootType env c tn)
 
 def flat1 (env : Env) (tn : String) : Selection → List Selection
   | .field a n d s sub => [.field a n d s sub]
-  | .inline (some c) _ _ ss => if incl env c tn then ss else []
+  | .inline (some c) _ _ ss => if incl env c tn then ss.filter isField else []
   | _ => []
 
 /-- the field nodes of the class on `tn`: direct fields and the content of the merged inline fragments -/
@@ -89,6 +92,46 @@ def flatG (env : Env) (tn : String) (sel : List Selection) : List Selection := s
 /-- … with the automatic `__typename` in front -/
 def rflat (a : Bool) (env : Env) (tn : String) (sel : List Selection) : List Selection :=
   (if autoTn a sel then [Marks.typenameSel] else []) ++ flatG env tn sel
+
+/-! ### named fragments used as mixins (spread at a class on exactly their OBJECT type) -/
+
+def isSpreadSel : Selection → Bool
+  | .spread .. => true
+  | _ => false
+
+def gSpreadStep (env : Env) (tn : String) (acc : List String) : Selection → List String
+  | .spread n _ => setAdd acc n
+  | .inline (some c) _ _ ss => if incl env c tn then setUnion acc (C01Mix.spreadNames ss) else acc
+  | _ => acc
+
+/-- the `fragments` set `_resolve_selection_set` returns for the class on `tn`: the fragments spread directly or inside a
+    merged inline fragment, in first-seen order -/
+def gSpreads (env : Env) (tn : String) (sel : List Selection) : List String := sel.foldl (gSpreadStep env tn) []
+
+/-- the base classes of the class on `tn` -/
+def aBases (env : Env) (tn : String) (sel : List Selection) : List String :=
+  if (gSpreads env tn sel).isEmpty then ["BaseModel"] else (sortStr (gSpreads env tn sel)).map pascal
+
+/-- the field nodes of fragment `g` (own and inherited), each with its declaring class; `e` bounds the spread nesting -/
+def inhOf (env : Env) (e : Nat) (g : String) : List (String × Selection) :=
+  match findFragment? env.frags g with
+  | some f => C01Mix.mflat env e (pascal f.name) f.sel
+  | none => []
+
+/-- the field nodes of the class on `tn` as the EXECUTOR collects them, own and inherited, in document order
+    (a fragment spread twice contributes twice) -/
+def c0 (env : Env) : Selection → List Selection
+  | .field a n d s sub => [.field a n d s sub]
+  | .spread g _ => (inhOf env (C01Mix.fragDepth env) g).map (·.2)
+  | _ => []
+
+def c1 (env : Env) (tn : String) : Selection → List Selection
+  | .inline (some c) _ _ ss => if incl env c tn then ss.flatMap (c0 env) else []
+  | s => c0 env s
+
+/-- all field nodes of the class, own and inherited (see `c0`), with the automatic `__typename` in front -/
+def cnodes (a : Bool) (env : Env) (tn : String) (sel : List Selection) : List Selection :=
+  (if autoTn a sel then [Marks.typenameSel] else []) ++ sel.flatMap (c1 env tn)
 
 /-! ### annotations -/
 
@@ -143,7 +186,7 @@ mutual
       if sub.isEmpty || name == typenameField then []
       else
         (relatedOf env (subClass env cn alias name) (subType env tn name) sub).flatMap fun p =>
-          { name := p.1, bases := ["BaseModel"],
+          { name := p.1, bases := aBases env p.2 sub,
             fields := (rflat (env.schema.isAbstract (subType env tn name)) env p.2 sub).flatMap
               (aDecl1 env p.1 p.2 (tvOf env (relatedOf env (subClass env cn alias name) (subType env tn name) sub) p.2)) }
             :: aExtra env p.1 p.2 sub
@@ -153,7 +196,7 @@ end
 
 /-- **the clean generator**: `_parse_type_definition(cn, tn, sel, add_typename = a, typename_values = tv)` -/
 def aClass (env : Env) (cn tn : String) (tv : List String) (a : Bool) (sel : List Selection) : List ClassDecl :=
-  { name := cn, bases := ["BaseModel"], fields := (rflat a env tn sel).flatMap (aDecl1 env cn tn tv) } :: aExtra env cn tn sel
+  { name := cn, bases := aBases env tn sel, fields := (rflat a env tn sel).flatMap (aDecl1 env cn tn tv) } :: aExtra env cn tn sel
 
 /-! ### automatic `__typename` -/
 
@@ -174,11 +217,39 @@ end
 
 /-! ### the hypothesis -/
 
-/-- conditions on the field nodes of ONE class standing for the runtime types `rts`: the conditions of the plain tier on
-    response keys / Python names (`setOK`), and — when the class has a `__typename` field — its literal contains every
+def nameOf : Selection → String
+  | .field _ n _ _ _ => n
+  | _ => ""
+
+def subOf : Selection → List Selection
+  | .field _ _ _ _ sub => sub
+  | _ => []
+
+def dirsOf : Selection → List Directive
+  | .field _ _ d _ _ => d
+  | _ => []
+
+/-- a field node that may share its response key with other nodes of the class: a leaf that is not `__typename` -/
+def plainLeaf (x : Selection) : Bool := (subOf x).isEmpty && nameOf x != typenameField
+
+/-- conditions on ALL field nodes of one class (own and inherited, `cnodes`): a response key reached more than once is reached
+    by LEAF selections of the SAME field only (`node { id ... on User { id } }`, `{ ...F id }` with `id` in `F`: the generator
+    emits / inherits the field twice, Python and pydantic keep one declaration; the executor merges the selections) — a
+    composite field or `__typename` owns its key (finding C01-F2 otherwise); distinct keys have distinct Python names; and the
+    populate_by_name condition of the plain tier -/
+def dupOK (env : Env) (l : List Selection) : Bool :=
+  let keys := dedup (l.map keyOf)
+  (l.all fun x =>
+    decide ((l.filter fun y => keyOf y == keyOf x).length ≤ 1)
+    || (l.filter fun y => keyOf y == keyOf x).all fun y => plainLeaf y && nameOf y == nameOf x)
+  && nodupB (keys.map (pyFieldName env))
+  && keys.all fun k => pyFieldName env k == k || !keys.contains (pyFieldName env k)
+
+/-- conditions on the field nodes of ONE class standing for the runtime types `rts`: the conditions on response keys / Python
+    names (`dupOK`), and — when the class has a `__typename` field — its literal contains every
     runtime type the class stands for (or, in the root class, which has no typename values: `rootTnOK`) -/
 def classHead (env : Env) (tn : String) (rts tv : List String) (a : Bool) (sel : List Selection) : Bool :=
-  setOK env (rflat a env tn sel)
+  dupOK env (cnodes a env tn sel)
   && (!((rflat a env tn sel).any isTnSel) || (if tv.isEmpty then rootTnOK env tn else rts.all tv.contains))
 
 def notTnField : Selection → Bool
@@ -230,8 +301,18 @@ mutual
       !hasConditionalDirective dirs
       -- the generator merges the fragment into this class iff the executor applies it to the class's runtime types (C01-F5)
       && rts.all (fun rt => incl env c tn == Exec.applies env.schema (some c) rt)
-      && (!incl env c tn || (ss.all notTnField && aSels env mk cn tn rts ss))
-    | _, _, _, _ => false     -- fragment spreads, inline fragments without type condition: outside this tier
+      -- content: fields, and (only when the fragment is on the class's own type) spreads of mixin fragments
+      && (!incl env c tn || (ss.all (fun y => notTnField y || (isSpreadSel y && c == tn)) && aSels env mk cn tn rts ss))
+    | _, tn, rts, .spread n dirs =>
+      -- a named fragment used as a MIXIN: no `@skip/@include` (finding C01-F3); the class is on an OBJECT type and stands for
+      -- that type only; the fragment is defined on exactly this type (else it is unpacked or dropped: other tiers / findings)
+      !hasConditionalDirective dirs
+      && env.schema.kindOf? tn == some .object
+      && rts.all (· == tn)
+      && (match findFragment? env.frags n with
+          | some f => f.on == tn
+          | none => false)
+    | _, _, _, _ => false     -- inline fragments without type condition: outside this tier
 end
 
 /-- **`AbsOK`**: the decidable hypothesis of the abstract-positions tier.  `sid` = identity of the top-level selection
